@@ -233,6 +233,9 @@ theorem leaf_ranges (cfg : Cfg) (db : Db) (l : RsLeaf) (q : Pfx) (hq : q.Valid)
       · subst h; rw [parseMember_plain, memberRange_none]; exact ⟨rfl, trivial⟩
     rw [← member_mem op p q hq hp.2, ← hp.1]
     exact any_filterMap_single _ _ q
+  | junk k =>
+    -- a word that is no prefix range is not parsed into a range and denotes nothing
+    simp [rsLeafItems, leafSet, parseMember]
 
 theorem filterMap_flatMap {β γ δ : Type} (l : List β) (f : β → List γ) (g : γ → Option δ) :
     (l.flatMap f).filterMap g = l.flatMap fun x => (f x).filterMap g := by
